@@ -380,7 +380,38 @@ def run(ctx: Ctx) -> None:
     ctx.rule("M4", "function calls, parameter lists, bindings, list expressions, regexes and runtime variables keep their elements verbatim with their delimiters", 7)
     v, o = run_cb("func_params", lambda: [operand("X"), operand("Y"), operand("Z")])
     ctx.check(same(v, SStr([OA("X"), ",", OA("Y"), ",", OA("Z")])), "M4", "func_params", loc("func_params"), "X,Y,Z", f"func_params builds {v!r}")
-    v, o = run_cb("func_call", lambda: [operand("F"), (("pp") if mode["concrete"] else SStr.atom("P", free=True, excludes=OPX))])
+    # structured parameters: a parameter may itself be a bracketed expression, a binding or a quoted literal
+    # holding brackets; each is kept whole (its own brackets included), in order, separated by commas only
+    param_makers = {
+        "bracketed sum": lambda: wrapped(X.call1("add", lambda: [sbind("pa"), numtok("SIGNED_INT", "1")])),
+        "bracketed comparison": lambda: wrapped(scmp("px", "py")),
+        "binding": lambda: sbind("pb"),
+        "literal in brackets-like quotes": lambda: lit('"(x)"'),
+        "number": lambda: numtok("SIGNED_INT", "2"),
+    }
+    for pn1, pm1 in param_makers.items():
+        for pn2, pm2 in param_makers.items():
+            if ctx.tier == "quick" and pn1 != pn2 and "bracketed" not in pn1 and "bracketed" not in pn2:
+                continue
+            hold = {}
+
+            def mkp(pm1=pm1, pm2=pm2):
+                p1, p2 = pm1(), pm2()
+                hold["t"] = [str(pai_desc(val_of(p1))), str(pai_desc(val_of(p2)))]
+                return [p1, p2]
+
+            try:
+                outs_ = X.eval_callback("func_params", mkp)
+            except xform.CallbackFailed as ex:
+                ctx.finding("M4", f"func_params({pn1}, {pn2})", loc("func_params"), f"builder fails: {ex}")
+                continue
+            if len(outs_) != 1 or outs_[0].kind != "return":
+                ctx.finding("M4", f"func_params({pn1}, {pn2})", loc("func_params"), f"func_params forks or fails on structured parameters: {[(o_.kind, o_.exc) for o_ in outs_][:2]}")
+                continue
+            got_ = str(pai_desc(val_of(outs_[0].value)))
+            want_ = ",".join(hold["t"])
+            ctx.check(got_ == want_, "M4", f"func_params({pn1}, {pn2})", loc("func_params"), want_, f"func_params with a {pn1} and a {pn2} builds {got_!r} instead of {want_!r}: a parameter is not kept verbatim (the grammar takes a bracketed parameter only with its brackets, so the normalised string no longer re-parses)")
+    v, o = run_cb("func_call", lambda: [operand("F"),(("pp") if mode["concrete"] else SStr.atom("P", free=True, excludes=OPX))])
     ctx.check(same(v, SStr(["(", OA("F"), "(", OA("P"), "))"])), "M4", "func_call", loc("func_call"), "(F(P))", f"func_call builds {v!r}")
     v, o = run_cb("attr_bind", lambda: [operand("W")])
     ctx.check(same(v, SStr(["[", OA("W"), "]"])), "M4", "attr_bind", loc("attr_bind"), "[W]", f"attr_bind builds {v!r}")
